@@ -85,18 +85,28 @@ def canon(op, ans):
     return ans
 
 
-def gen_disabled(ctx):
-    rc, so, se = vlib.go_run_gen(ctx, 'c13facts', ['repo=' + ctx.repo, 'out=' + os.path.join(vlib.LEAN, 'Rangers', 'Generated')])
+def gen(ctx):
+    outd = os.path.join(ctx.work, 'gen')
+    import shutil
+    shutil.rmtree(outd, ignore_errors=True)
+    os.makedirs(outd)
+    rc, so, se = vlib.go_run_gen(ctx, 'c13facts', ['repo=' + ctx.repo, 'out=' + outd])
     if rc != 0:
         return dict(ok=False, error=(se or so)[-1500:])
-    facts = {}
+    facts, changed = {}, []
     for line in so.split('\n'):
         if line.startswith('FACTS '):
             try:
                 facts = json.loads(line[6:])
             except Exception:
                 facts = {'raw': line[6:]}
-    return dict(ok=True, facts=facts)
+    for fn in ('Bn256Consts.lean', 'C13Sites.lean'):
+        src = os.path.join(outd, fn)
+        if not os.path.exists(src):
+            return dict(ok=False, error='translator did not write ' + fn)
+        if vlib.write_if_changed(os.path.join(vlib.LEAN, 'Rangers', 'Generated', fn), open(src).read()):
+            changed.append(fn)
+    return dict(ok=True, facts=facts, changed=changed)
 
 
 def correspond(ctx):
